@@ -162,7 +162,10 @@ type FE struct {
 	addrVars       map[types.Object]bool
 	cellNames      map[string]bool
 	loopWriteRefs  []string
+	loopWriteWhole map[string]bool
 	scanning       bool
+	qcount         int
+	refHeaps       map[string]int // initial heap arrays holding object references -> number of index levels
 	frameWhole     map[string]bool
 	frameLocs      map[string][]string
 	frameReady     bool
@@ -348,6 +351,7 @@ func (fe *FE) load(st *State, loc *Loc) Val {
 	}
 	if len(comps) == 1 {
 		v := scalar(get(comps[0]), comps[0].sort, loc.T)
+		fe.noteRefHeap(loc)
 		fe.assumeClosed(st, v)
 		if cur, ok := st.heap[loc.Base]; ok && cur == loc.Base+"!0" && len(loc.Idx) > 0 && v.Sort == SInt {
 			// a location never written by this activation, of an object that existed at entry, holds an object that existed at entry
@@ -369,6 +373,7 @@ func (fe *FE) load(st *State, loc *Loc) Val {
 		return v
 	}
 	v := Val{Kind: VSlice, Arr: get(comps[0]), Off: get(comps[1]), Len: get(comps[2]), Cap: get(comps[3]), GoT: loc.T}
+	fe.noteRefHeap(loc)
 	fe.assumeSliceWF(st, v)
 	return v
 }
@@ -579,7 +584,7 @@ func (fe *FE) loopFrameOb(st *State, base string, idx []string) {
 		return
 	}
 	ref := idx[0]
-	if isFreshRefTerm(ref) || fe.initializing {
+	if isFreshRefTerm(ref) || fe.initializing || fe.loopWriteWhole[base] || fe.loopWriteWhole[stripComp(base)] {
 		return
 	}
 	goal := "(or (= " + ref + " 0) (> " + ref + " cnt!entry)"
@@ -653,4 +658,28 @@ func (fe *FE) frameWholeOb(st *State, name, why string) {
 		return
 	}
 	fe.addOb(st, "frame", "whole."+sanitize(base)+"@"+fe.curPos, nil, "false", why+": the callee may modify every "+base+" but the caller's modifies clause does not list it")
+}
+
+// noteRefHeap: heap arrays whose cells hold object references; at function entry every such cell holds an
+// object that already exists (closed heap) -- emitted as an axiom over the initial version of the array.
+func (fe *FE) noteRefHeap(loc *Loc) {
+	if loc.T == nil || len(loc.Idx) == 0 {
+		return
+	}
+	switch loc.T.Underlying().(type) {
+	case *types.Pointer, *types.Map:
+		fe.V.mu.Lock()
+		if fe.refHeaps == nil {
+			fe.refHeaps = map[string]int{}
+		}
+		fe.refHeaps[loc.Base] = len(loc.Idx)
+		fe.V.mu.Unlock()
+	case *types.Slice:
+		fe.V.mu.Lock()
+		if fe.refHeaps == nil {
+			fe.refHeaps = map[string]int{}
+		}
+		fe.refHeaps[loc.Base+".arr"] = len(loc.Idx)
+		fe.V.mu.Unlock()
+	}
 }
